@@ -87,7 +87,7 @@ def _path(rng, links):
 def gen_cases(tier, seed):
     rng = random.Random(f'c13-{seed}')
     cases = []
-    ns = 600 if tier == 'quick' else 25000
+    ns = 1500 if tier == 'quick' else 25000
     for i in range(ns):
         build = []
         links = []
@@ -151,7 +151,7 @@ def gen_cases(tier, seed):
                       'version': rng.choice([3, 3, 4, 6]),
                       'cseed': rng.randrange(1 << 30)})
 
-    ng = 120 if tier == 'quick' else 4000
+    ng = 300 if tier == 'quick' else 4000
     names = ['../evil', '../../evil2', '/abs_evil', 'sub/../../evil3',
              'ok.txt', 'dir', '..', '.', 'a/b', '/tmp/vf_c13_abs',
              '..\\evil4', 'x\x00y', 'lnk', '', ' ', 'ok2', 'sub/..',
@@ -189,7 +189,7 @@ def gen_cases(tier, seed):
                       'version': rng.choice([3, 3, 4]),
                       'cseed': rng.randrange(1 << 30)})
 
-    nc = 120 if tier == 'quick' else 4000
+    nc = 300 if tier == 'quick' else 4000
     for i in range(nc):
         recs = []
         for _ in range(rng.choice([1, 2, 3, 5, 8])):
